@@ -31,7 +31,7 @@ var c08Assumptions = []string{
 	"stored value of a struct = its exported fields not tagged msg:\"-\" (plus the unexported fields of types generated with msgp -unexported and holding such fields: state.HardFork); caches, mutexes, derived maps (BlobberAllocsMap, ChallengeMap, Pool.Nodes, Partitions.Partitions/locations) are not part of it",
 	"equality ignores the nil / empty distinction of slices and maps, compares time.Time with Equal and floats bitwise",
 	"state.State: TxnHashBytes is a 32-byte hash (as SetTxnHash stores it); TxnHash is derived from it by ComputeProperties",
-	"node pools (magic block, miner global node): node public keys are valid BLS keys and every node's id is the hash of its public key and its SetIndex its position in id order (the stored invariants the pool decoder re-establishes via SetPublicKey / computeNodePositions); free ids and indexes are enumerated on node.Node / client.Client themselves",
+	"node pools (magic block, miner global node): node public keys are valid BLS keys and every node's id is the hash of its public key and its SetIndex its position in id order, the pool map being keyed by id (the stored invariants the pool decoder re-establishes via SetPublicKey / computeNodePositions); free ids and indexes are enumerated on node.Node / client.Client themselves",
 	"entity wrappers: the Version tag is set by the codec (InitVersion) and is not enumerated",
 	"values are decoded into a fresh zero value, as GetTrieNode's callers do",
 }
@@ -94,12 +94,23 @@ func c08FixClientIDs(v reflect.Value) {
 		if v.Type() == c08PoolType && v.CanAddr() {
 			// inside a pool a node's SetIndex is its position in id order (AddNode and the decoders
 			// both recompute it)
+			// ... and the map is keyed by node id (so ids are distinct)
 			p := v.Addr().Interface().(*node.Pool)
+			var ks []string
+			for k := range p.NodesMap {
+				ks = append(ks, k)
+			}
+			sort.Strings(ks)
 			var ns []*node.Node
-			for _, n := range p.NodesMap {
-				if n != nil {
-					ns = append(ns, n)
+			if p.NodesMap != nil {
+				byID := make(map[string]*node.Node, len(ks))
+				for _, k := range ks {
+					if n := p.NodesMap[k]; n != nil && byID[n.GetKey()] == nil {
+						byID[n.GetKey()] = n
+						ns = append(ns, n)
+					}
 				}
+				p.NodesMap = byID
 			}
 			sort.SliceStable(ns, func(i, j int) bool { return ns[i].GetKey() < ns[j].GetKey() })
 			for i, n := range ns {
@@ -117,7 +128,7 @@ func c08FixClientIDs(v reflect.Value) {
 	}
 }
 
-var c08NodeKeys = []any{c26PublicKeys[0], c26PublicKeys[1], c26PublicKeys[2]}
+var c08NodeKeys = []any{c26PublicKeys[0], c26PublicKeys[1], c26PublicKeys[2], c26PublicKeys[3], c26PublicKeys[4]}
 
 func c08Hash32(b byte) []byte {
 	h := make([]byte, 32)
